@@ -195,7 +195,7 @@ func (m *Model) opCases() *opCaseResult {
 	}
 	L, R := iSym{name: "L"}, iSym{name: "R"}
 	var allEvents [][]string // the operand evaluations of every path of the last case evaluated
-	sameOperand := false // both operands evaluate to one and the same object (`x == x`, `arr[0] == arr[0]`)
+	sameOperand := false     // both operands evaluate to one and the same object (`x == x`, `arr[0] == arr[0]`)
 	evalCase := func(sym string, lk, rk string) ([]symPath, []string, bool) {
 		var events []string
 		allEvents = nil
